@@ -4,6 +4,7 @@ package main
 
 import (
 	"bytes"
+	"encoding/binary"
 	"fmt"
 	"strings"
 
@@ -123,6 +124,7 @@ func propC01(c *Ctx) {
 			}
 		}
 	}
+	c.sizeLimit(g)
 	for i := 0; i < c.n(300, 20000); i++ {
 		var sx *Sx
 		if i%10 == 0 {
@@ -155,6 +157,61 @@ func c01Noise(g *Gen, k *saKeys, lsa *longSA, role message.Role) {
 	}
 	b, _ := g.authMalformed(k, !role) // and the sending object receives one in its own receive direction
 	guard(func() (string, error) { unprotect(lsa.sender, b, role, false); return "", nil })
+}
+
+// the largest messages that still fit the 16-bit SK payload length, per suite (suites of C01 and C06)
+func (c *Ctx) sizeLimit(g *Gen) {
+	ss := c.suite("size-limit", "oracle",
+		"per suite and sender role: a single Vendor ID payload making the inner chain L octets long, for every L in 65440..65500 (quick tier: the 12 lengths around each suite's own limit and every 5th other): EncodeEncrypt must succeed iff 4 + 16 + 16*ceil((L+1)/16) + checksum length <= 65535, what it produces must be opened by the independent reference and unprotected to the original by a fresh peer, and the same inner chain protected by the reference must be accepted; non-trivial = every case")
+	for _, st := range allSuites() {
+		icv := refIntegOutLen[st.i]
+		fits := func(L int) bool { return 4+16+16*((L+1+15)/16)+icv <= 65535 }
+		lim := 65440
+		for fits(lim + 1) {
+			lim++
+		}
+		k := g.saKeys(st)
+		for L := 65440; L <= 65500; L++ {
+			if !c.thorough() && (L < lim-6 || L > lim+5) && L%5 != 0 {
+				continue
+			}
+			role := message.Role(L%2 == 0)
+			sx := L_(A("msg"), g.header(), L_(L_(A("V"), X(g.keyBytesRandom(L-4)))))
+			m := buildMsg(sx)
+			caseText := fmt.Sprintf("size-limit suite=%s role=%s inner=%d", st.String(), roleName(role), L)
+			setCase(caseText)
+			ss.add(caseText, true, "suite:"+st.String(), fmt.Sprintf("fits:%v", fits(L)))
+			pres, _ := protect(newSA(k), m, role, g.keyBytesRandom(32), -1)
+			if (pres.kind == "ok") != fits(L) || pres.kind == "panic" {
+				c.violate(Violation{Suite: ss.Name, Kind: "property", Index: L, Class: "size-limit:" + pres.kind,
+					Desc:  fmt.Sprintf("inner payloads of %d octets under suite %s: EncodeEncrypt %s although the protected form %s the 16-bit payload length (replay: re-run of the suite with this seed)", L, st.String(), map[bool]string{true: "succeeds", false: "fails"}[pres.kind == "ok"], map[bool]string{true: "fits", false: "exceeds"}[fits(L)]),
+					Input: "", Expected: map[bool]string{true: "ok", false: "err"}[fits(L)], Actual: clip(pres.String())})
+				continue
+			}
+			if fits(L) { // the same inner chain protected by the independent reference: the library has to accept it
+				inner, _ := buildMsg(sx).Payloads.Encode()
+				pad := (16 - (len(inner)+1)%16) % 16
+				hdr := encodeHeaderRef(sx.List[1], 46, nil)
+				ref := refBuildSK(k, role, hdr, 43, inner, g.keyBytesRandom(16), g.keyBytesRandom(pad))
+				want := renderMsg(buildMsg(sx)).String()
+				if ur := unprotect(newSA(k), ref, !role, L%2 == 0); ur.kind != "ok" || ur.val != want {
+					c.violate(Violation{Suite: ss.Name, Kind: "property", Index: L, Class: "size-limit-reference-built:" + ur.kind,
+						Desc: fmt.Sprintf("inner payloads of %d octets under suite %s, protected by the independent reference (legal: the SK payload is %d octets): not unprotected to the original", L, st.String(), len(ref)-28), Input: "", Expected: "ok <the message>", Actual: clip(ur.String())})
+				}
+			}
+			if pres.kind == "ok" {
+				if o, err := refOpenSK(k, role, unhx(pres.val)); err != nil || len(o.plain) != L {
+					c.violate(Violation{Suite: ss.Name, Kind: "property", Index: L, Class: "size-limit-reference-opens",
+						Desc: fmt.Sprintf("inner payloads of %d octets under suite %s: the independent reference does not open what EncodeEncrypt produced", L, st.String()), Input: "", Expected: "opened, inner chain of the given size", Actual: fmt.Sprint(err)})
+				}
+				want := renderMsg(buildMsg(sx)).String()
+				if ur := unprotect(newSA(k), unhx(pres.val), !role, L%3 == 0); ur.kind != "ok" || ur.val != want {
+					c.violate(Violation{Suite: ss.Name, Kind: "property", Index: L, Class: "size-limit-roundtrip:" + ur.kind,
+						Desc: fmt.Sprintf("inner payloads of %d octets under suite %s: the protected message is not unprotected to the original", L, st.String()), Input: "", Expected: "ok <the message>", Actual: clip(ur.String())})
+				}
+			}
+		}
+	}
 }
 
 // SA objects that live across several messages of one (suite, role, keys) group
@@ -235,7 +292,7 @@ func (c *Ctx) c01NoKey(s *SuiteStat, sx *Sx, idx int) {
 func propC02(c *Ctx) {
 	g := NewGen(c.seed)
 	s := c.suite("tamper", "oracle",
-		"per protected message (9 suites x both roles): every single-bit flip (exhaustive), every pair of bit flips within the checksum field (exhaustive), every proper prefix, extensions by 1..32 octets, random multi-octet edits, header/body splices of two messages under the same keys, unrelated keys, reflection to the sender's own role; SK bodies shorter than the checksum; spy ciphers count Decrypt calls; non-trivial = protected message with >= 1 inner payload; distinct by altered datagram")
+		"per protected message (9 suites x both roles): every single-bit flip (exhaustive), every pair of bit flips within the checksum field (exhaustive), every proper prefix, the SK payload (whole and cut to every length 0..checksum length + 4) moved behind unsupported non-critical payloads, extensions by 1..32 octets, random multi-octet edits, header/body splices of two messages under the same keys, unrelated keys, reflection to the sender's own role; SK bodies shorter than the checksum; spy ciphers count Decrypt calls; non-trivial = protected message with >= 1 inner payload; distinct by altered datagram")
 	var corr []corrCase
 	perSuite := c.n(2, 40)
 	idx := 0
@@ -287,7 +344,7 @@ func (c *Ctx) c02Check(s *SuiteStat, k *saKeys, sa *security.IKESAKey, si, sr *s
 			Desc: "ciphertext of a non-genuine datagram was handed to the cipher (" + what + ")", Input: line, Expected: "0 Decrypt calls", Actual: fmt.Sprintf("%d", si.decrypts+sr.decrypts)})
 		return
 	}
-	presentsSK := len(alt) >= 28 && alt[16] == 46
+	presentsSK := len(alt) >= 28 && alt[16] == 46 || what == "displaced-sk"
 	if !presentsSK {
 		// handled as an unprotected datagram: same outcome as with no key at all
 		r0 := unprotect(nil, alt, role, withHdr)
@@ -346,6 +403,27 @@ func (c *Ctx) c02Case(s *SuiteStat, g *Gen, k *saKeys, sender message.Role, sx, 
 	// every proper prefix
 	for l := 0; l < len(m1); l++ {
 		chk(m1[:l], "prefix", l%7 == 0)
+	}
+	// the SK payload of the genuine message (whole, or cut to 0..checksum length + 4 octets) moved behind 1..2
+	// unsupported non-critical payloads that the chain walker skips: the datagram still presents an Encrypted payload
+	for cut := -1; cut <= icv+4; cut++ {
+		body := m1[32:]
+		if cut >= 0 {
+			if cut > len(body) {
+				break
+			}
+			body = body[:cut]
+		}
+		var els []chainElem
+		for n := 1 + (cut+1)%2; n > 0; n-- {
+			els = append(els, chainElem{typ: uint8(g.pick(1, 5, 32, 49, 127, 200, 255)), body: g.bytes(g.r.Intn(6))})
+		}
+		els = append(els, chainElem{typ: 46, body: body})
+		alt := append(append([]byte{}, m1[:28]...), encodeChainRef(els)...)
+		alt[16] = els[0].typ
+		binary.BigEndian.PutUint32(alt[24:28], uint32(len(alt)))
+		alt[28+4*0+len(encodeChainRef(els[:len(els)-1]))] = m1[28] // the SK payload's own next-payload field as in the genuine message
+		chk(alt, "displaced-sk", true)
 	}
 	// extensions
 	for e := 1; e <= 32; e++ {
@@ -416,6 +494,7 @@ func propC06(c *Ctx) {
 	var corr []corrCase
 	idx := 0
 	per := c.n(12, 600)
+	c.sizeLimit(g)
 	for _, st := range allSuites() {
 		for _, role := range []message.Role{message.Role_Initiator, message.Role_Responder} {
 			var k *saKeys
@@ -536,7 +615,7 @@ func (c *Ctx) c06Case(s, s2 *SuiteStat, g *Gen, k *saKeys, lsa *longSA, role mes
 
 func (c *Ctx) c04Unprotect(g *Gen) {
 	s := c.suite("unprotect-arbitrary", "oracle",
-		"DecodeDecrypt on malformed datagrams with any key set (9 suites, both roles, header parsed from the same bytes or not supplied, and nil keys), SK bodies of every length 0..80, and IKECrypto.Decrypt on every ciphertext length 0..96 x all 256 recovered pad-length octets; non-trivial = input >= 4 octets")
+		"DecodeDecrypt on malformed datagrams with any key set (9 suites, both roles, header parsed from the same bytes or not supplied, and nil keys), SK bodies of every length 0..80, consistent chains in which the SK payload (genuine, short or random body) stands behind and/or in front of other payloads (unsupported ones that the walker skips, Nonce, Vendor ID), and IKECrypto.Decrypt on every ciphertext length 0..96 x all 256 recovered pad-length octets; non-trivial = input >= 4 octets")
 	idx := 0
 	var corr []corrCase
 	for _, st := range allSuites() {
@@ -555,6 +634,8 @@ func (c *Ctx) c04Unprotect(g *Gen) {
 				in[16] = 46
 				in = append(in, g.bytes(l)...)
 				in[27] = byte(len(in))
+			case 2: // a well-formed chain in which the SK payload is NOT the first payload (or is followed by others)
+				in = g.displacedSK(k, !role)
 			default:
 				p, _ := protect(newSA(k), buildMsg(g.protMsg()), !role, g.keyBytesRandom(32), -1)
 				if p.kind != "ok" {
@@ -622,6 +703,57 @@ func (c *Ctx) c04Unprotect(g *Gen) {
 	}
 	sc := c.suite("unprotect-model-vs-impl", "correspondence", "sample of the above: Go outcome = Lean model outcome")
 	c.correspond(sc, corr)
+}
+
+// displacedSK: header + a consistent payload chain in which an SK payload stands behind 1..3 other payloads
+// (unsupported non-critical ones, which the chain walker skips, or Nonce / Vendor ID) and/or in front of further
+// ones; the SK body is a genuine one, a short one (0..checksum length + 20 octets), or random
+func (g *Gen) displacedSK(k *saKeys, sender message.Role) []byte {
+	icv := refIntegOutLen[k.st.i]
+	var body []byte
+	switch g.r.Intn(4) {
+	case 0:
+		for body == nil {
+			if p, _ := protect(newSA(k), buildMsg(g.smallMsg()), sender, g.keyBytesRandom(32), -1); p.kind == "ok" {
+				body = unhx(p.val)[32:]
+			}
+		}
+	case 1:
+		body = g.bytes(g.r.Intn(icv + 21))
+	case 2:
+		body = g.bytes(g.pick(0, 1, icv-1, icv, icv+1, 16, 16+icv, 32+icv))
+	default:
+		body = g.bytes(g.r.Intn(120))
+	}
+	var els []chainElem
+	filler := func() chainElem {
+		switch g.r.Intn(3) {
+		case 0:
+			return chainElem{typ: uint8(g.pick(40, 43)), body: g.bytes(1 + g.r.Intn(8))}
+		default:
+			return chainElem{typ: uint8(g.pick(1, 5, 32, 49, 50, 127, 200, 255)), resv: uint8(g.r.Intn(128)), body: g.bytes(g.r.Intn(12))}
+		}
+	}
+	for n := g.pick(0, 1, 1, 1, 2, 3); n > 0; n-- {
+		els = append(els, filler())
+	}
+	els = append(els, chainElem{typ: 46, body: body})
+	for n := g.pick(0, 0, 0, 1, 2); n > 0; n-- {
+		els = append(els, filler())
+	}
+	h := L(A("H"), N(g.u64()), N(g.u64()), N(2), N(0), N(uint64(g.pick(34, 35, 36, 37))), N(uint64(g.pick(0, 8, 32, 40))), N(uint64(g.r.Intn(4))))
+	out := encodeHeaderRef(h, els[0].typ, encodeChainRef(els))
+	if g.chance(0.5) { // the inner first-payload field of the SK payload: chainRef wrote the type of the following payload; also try others
+		off := 28
+		for _, e := range els {
+			if e.typ == 46 {
+				out[off] = byte(g.pick(0, 33, 41, 46, 48))
+				break
+			}
+			off += 4 + len(e.body)
+		}
+	}
+	return out
 }
 
 // replay of "unprotect ..." / "cbc-decrypt ..." lines
